@@ -63,7 +63,8 @@ def gen(rng, tier, i):
 
     for c in range(nusers):
         p.cycle(connect(0, c))
-        p.cycle(send(c, 'do name u%d' % c + EOL))
+        # users stand in a room (shout() only reaches listeners that have an environment)
+        p.cycle(send(c, ('do name u%d;clone /vobj room;move me room' if c == 0 else 'do name u%d;move me room') % c + EOL))
     alive = list(range(nusers))
     for _ in range(rng.randint(2, 14 if tier == 'quick' else 30)):
         if not alive: break
@@ -76,7 +77,7 @@ def gen(rng, tier, i):
             ops = []
             for _ in range(rng.choice((1, 1, 2, 3, 6))):
                 mid[0] += 1
-                how = rng.choice(('tell', 'tell', 'receive', 'write', 'printf') if kind == 'telnet' else ('tell', 'tell', 'receive'))
+                how = rng.choice(('tell', 'tell', 'receive', 'write', 'printf', 'shout') if kind == 'telnet' else ('tell', 'tell', 'receive', 'shout'))
                 tgt = ''
                 if how == 'tell' and rng.random() < 0.3 and len(alive) > 1:
                     tgt = ' u%d' % rng.choice(alive)
@@ -184,9 +185,9 @@ def check(plan, res):
                 if w[1] not in alias: continue
                 item = [mkmsg(int(w[2]), int(w[3])).replace('\n', '\r\n').encode(), 'message %s (%s)' % (w[2], w[4]), idx, None]
                 exp.setdefault(alias[w[1]], []).append(item)
-                pending[w[2]] = item
+                pending.setdefault(w[2], []).append(item)      # shout: one message, several recipients
             elif w[0] == 'OUTDONE' and w[1] in pending:
-                pending[w[1]][3] = idx
+                for it in pending[w[1]]: it[3] = idx
         elif e.kind == 'accept' and telnet:
             exp.setdefault(int(e.kv()['conn']), []).append([TELNET_INIT, 'telnet negotiation', idx, idx])
         elif e.kind == 'recv' and telnet and 'crnl=' in e.rest:
